@@ -43,10 +43,14 @@ pub struct Payload {
 pub const ST_FREE: u8 = 0;
 pub const ST_LIVE: u8 = 1;
 pub const ST_DEAD: u8 = 2;
+/// strong == 0 and weak == 0: the allocation is gone (its address may be reused).
+pub const ST_GONE: u8 = 3;
 
 #[repr(align(16))]
 pub struct Slot {
     pub strong: AtomicUsize,
+    /// Weak count as in std: the strong references collectively hold one weak reference.
+    pub weak: AtomicUsize,
     pub state: Cell<u8>,
     pub uid: Cell<u32>,
     pub kind: Cell<u8>,
@@ -135,6 +139,17 @@ pub fn slot_at(addr: usize) -> Option<(u8, u32, usize)> {
     })
 }
 
+/// Latest weak count (std convention: includes the one held by the strong references) per slot.
+pub fn weak_at(addr: usize) -> usize {
+    ARENA.with(|a| {
+        let a = a.borrow();
+        match a.by_addr.get(&addr) {
+            Some(si) => a.slots[*si].weak.verif_peek(),
+            None => 0,
+        }
+    })
+}
+
 pub fn all_slots() -> Vec<(usize, u8, u32, usize)> {
     ARENA.with(|a| {
         a.borrow()
@@ -164,6 +179,7 @@ impl<K: Kind> SimArc<K> {
                 let idx = a.slots.len();
                 a.slots.push(Box::new(Slot {
                     strong: AtomicUsize::new(0),
+                    weak: AtomicUsize::new(0),
                     state: Cell::new(ST_FREE),
                     uid: Cell::new(0),
                     kind: Cell::new(0),
@@ -189,6 +205,8 @@ impl<K: Kind> SimArc<K> {
             let s = &a.slots[si];
             s.strong.verif_reset(1);
             s.strong.verif_label(LocClass::Strong, 0);
+            s.weak.verif_reset(1);
+            s.weak.verif_label(LocClass::Strong, 1);
             s.state.set(ST_LIVE);
             s.uid.set(uid);
             s.kind.set(K::KIND);
@@ -375,12 +393,16 @@ impl<K: Kind> Drop for SimArc<K> {
             let o = &mut a.objs[uid as usize - 1];
             o.alive = false;
             o.destroyed += 1;
-            let si = o.slot;
-            a.free.push(si);
             a.on_destroy
         });
         if let Some(h) = hook {
             h(uid);
+        }
+        // the strong references collectively held one weak reference: give it back (this is
+        // what frees the allocation once no Weak is left)
+        release_weak(self.ptr, uid);
+        if rt::is_aborting() {
+            return;
         }
         if s.panic_on_drop.get() && !std::thread::panicking() && !rt::is_aborting() {
             s.panic_on_drop.set(false);
@@ -434,4 +456,147 @@ pub fn arm_panic_at(addr: usize) -> bool {
             _ => false,
         }
     })
+}
+
+/// Drops one weak reference of the allocation at `ptr`; the last one frees the allocation (its
+/// address becomes reusable).
+fn release_weak(ptr: *const Slot, uid: u32) {
+    let s = unsafe { &*ptr };
+    let old = s.weak.fetch_sub(1, Ordering::Release);
+    if rt::is_aborting() {
+        return;
+    }
+    if old == 0 {
+        rt::fail("double-release", format!("weak count underflow on uid={}", uid));
+        return;
+    }
+    if old != 1 {
+        return;
+    }
+    verif_rt::atomic::fence(Ordering::Acquire);
+    if rt::is_aborting() {
+        return;
+    }
+    if s.state.get() != ST_DEAD || s.uid.get() != uid {
+        rt::fail(
+            "uaf",
+            format!("allocation of uid={} freed (weak count reached zero) while the value is still alive or already gone", uid),
+        );
+        return;
+    }
+    s.state.set(ST_GONE);
+    ARENA.with(|a| {
+        let mut a = a.borrow_mut();
+        if let Some(si) = a.by_addr.get(&(ptr as usize)).copied() {
+            a.free.push(si);
+        }
+    });
+}
+
+/// A weak pointer to an arena object (`std::sync::Weak` stand-in). `ptr` null = dangling
+/// (`Weak::new()`).
+pub struct SimWeak<K: Kind> {
+    ptr: *const Slot,
+    uid: u32,
+    _k: PhantomData<K>,
+}
+
+impl<K: Kind> SimWeak<K> {
+    pub fn dangling() -> SimWeak<K> {
+        SimWeak {
+            ptr: std::ptr::null(),
+            uid: 0,
+            _k: PhantomData,
+        }
+    }
+    pub fn addr(&self) -> usize {
+        self.ptr as usize
+    }
+    /// Identity of the allocation (harness bookkeeping, no access to the object).
+    pub fn peek_uid(&self) -> u32 {
+        self.uid
+    }
+    fn touch(&self, what: &str) -> bool {
+        if rt::is_aborting() {
+            return false;
+        }
+        if !ARENA.with(|a| a.borrow().by_addr.contains_key(&(self.ptr as usize))) {
+            rt::fail("type-confusion", format!("{} through a weak handle whose pointer {:#x} is not an object", what, self.ptr as usize));
+            return false;
+        }
+        let s = unsafe { &*self.ptr };
+        if s.state.get() == ST_GONE || s.state.get() == ST_FREE {
+            rt::fail("uaf", format!("{} of the weak count of a freed allocation (uid={})", what, s.uid.get()));
+            return false;
+        }
+        if s.kind.get() != K::KIND {
+            rt::fail("type-confusion", format!("{} through a weak handle of kind {} on object uid={} of kind {}", what, K::KIND, s.uid.get(), s.kind.get()));
+            return false;
+        }
+        true
+    }
+}
+
+impl<K: Kind> SimArc<K> {
+    /// `Arc::downgrade`.
+    pub fn downgrade(&self) -> SimWeak<K> {
+        if !self.touch("downgrade") {
+            return SimWeak::dangling();
+        }
+        let s = self.slot();
+        s.weak.fetch_add(1, Ordering::Relaxed);
+        SimWeak {
+            ptr: self.ptr,
+            uid: s.uid.get(),
+            _k: PhantomData,
+        }
+    }
+}
+
+impl<K: Kind> Clone for SimWeak<K> {
+    fn clone(&self) -> Self {
+        if !self.ptr.is_null() && self.touch("weak increment") {
+            let s = unsafe { &*self.ptr };
+            let old = s.weak.fetch_add(1, Ordering::Relaxed);
+            if old == 0 && !rt::is_aborting() {
+                rt::fail("uaf", format!("weak increment of a zero weak count, uid={}", s.uid.get()));
+            }
+        }
+        SimWeak {
+            ptr: self.ptr,
+            uid: self.uid,
+            _k: PhantomData,
+        }
+    }
+}
+
+impl<K: Kind> Drop for SimWeak<K> {
+    fn drop(&mut self) {
+        if self.ptr.is_null() || !self.touch("weak decrement") {
+            return;
+        }
+        let uid = unsafe { (*self.ptr).uid.get() };
+        release_weak(self.ptr, uid);
+    }
+}
+
+unsafe impl<K: Kind> RefCnt for SimWeak<K> {
+    type Base = Slot;
+    fn into_ptr(me: Self) -> *mut Slot {
+        let p = me.ptr as *mut Slot;
+        std::mem::forget(me);
+        p
+    }
+    fn as_ptr(me: &Self) -> *mut Slot {
+        me.ptr as *mut Slot
+    }
+    unsafe fn from_ptr(ptr: *const Slot) -> Self {
+        let known = !ptr.is_null() && ARENA.with(|a| a.borrow().by_addr.contains_key(&(ptr as usize)));
+        let uid = if known { (*ptr).uid.get() } else { 0 };
+        SimWeak {
+            ptr,
+            uid,
+            _k: PhantomData,
+        }
+    }
 }
